@@ -147,19 +147,39 @@ impl C07 {
 			7 | 8 => {
 				// build_coinbase with an arbitrary key id: guessable paths of existing outputs
 				let snap = run.ex.world.snap(w);
+				let mut named_height: Option<u64> = None;
 				let key = if !snap.outputs.is_empty() && run.rng.chance(2, 3) {
-					Some(run.rng.pick(&snap.outputs).key_id.to_hex())
+					let o = run.rng.pick(&snap.outputs);
+					named_height = Some(o.height);
+					Some(o.key_id.to_hex())
 				} else if run.rng.chance(1, 2) {
 					Some(ExtKeychain::derive_key_id(3, run.rng.below(3) as u32, 0, run.rng.below(12) as u32, 0).to_hex())
 				} else {
 					None
 				};
+				// a stale, replayed or forged miner request may name any height: the tip and
+				// just above (the honest case), but also heights around the named output's
+				// own, the chain start and far ahead
+				let cb_height: u64 = {
+							let tip = run.ex.world.chain.height();
+							let oh = named_height.unwrap_or(tip);
+							match run.rng.below(10) {
+								0 => 0,
+								1 => 1,
+								2 => oh.saturating_sub(1),
+								3 => oh,
+								4 => oh + 1,
+								5 => tip.saturating_sub(run.rng.below(4)),
+								6 => tip + 1000,
+								_ => tip + run.rng.below(3),
+							}
+						};
 				Some(Step::new(Op::Custom {
 					name: "coinbase".into(),
 					args: json!({
 						"w": w,
 						"key": key,
-						"height": run.ex.world.chain.height() + run.rng.below(3),
+						"height": cb_height,
 						"fees": *run.rng.pick(&[0u64, 1, 1_000_000, u64::MAX / 2]),
 					}),
 				}))
